@@ -491,6 +491,7 @@ type c11Obs struct {
 	returned bool
 	sync     bool
 	reqs     []*c11Req
+	diag     string
 }
 
 type c11Result struct {
@@ -550,7 +551,10 @@ func (c *c11Case) answer(q *c11Req) (c11Outcome, string) {
 	return o, g
 }
 
-func c11Run(t *testing.T, c *c11Case, sched [][]int, watchdog time.Duration) *c11Obs {
+func c11Run(t *testing.T, c *c11Case, sched [][]int, stepWait time.Duration) *c11Obs {
+	// stepWait bounds the wait for a predicted set of requests (shortened by the caller when the lock-step is
+	// lost in most cases anyway); the waits that decide `returned` are never shortened
+	const watchdog = 6 * time.Second
 	obs := &c11Obs{sync: true}
 	stub := &c11Stub{byURL: map[string]int{}, attempt: map[int]int{}}
 	for i, s := range c.svcs {
@@ -624,7 +628,7 @@ func c11Run(t *testing.T, c *c11Case, sched [][]int, watchdog time.Duration) *c1
 	for k := 0; k < nsteps && obs.sync; k++ {
 		done, batch := sched[k][0], sched[k][1:]
 		var all []*c11Req
-		ok := c11WaitUntil(watchdog, func() bool {
+		ok := c11WaitUntil(stepWait, func() bool {
 			if returned() {
 				return true
 			}
@@ -654,7 +658,7 @@ func c11Run(t *testing.T, c *c11Case, sched [][]int, watchdog time.Duration) *c1
 		release(target, append([]int(nil), batch...))
 	}
 	// ---- wait for the result; if the lock-step was lost, release requests in arrival order ----
-	if obs.sync && !c11WaitUntil(watchdog, returned) {
+	if obs.sync && !c11WaitUntil(stepWait, returned) {
 		// the model predicts that Put returns now without further answers
 		obs.sync = false
 	}
@@ -679,6 +683,7 @@ func c11Run(t *testing.T, c *c11Case, sched [][]int, watchdog time.Duration) *c1
 		batch := svcsOf(all[nseen:])
 		nseen = len(all)
 		release(out[0], batch)
+		deadline = time.Now().Add(watchdog)
 	}
 	obs.returned = returned()
 	if res != nil {
@@ -716,6 +721,8 @@ func c11Run(t *testing.T, c *c11Case, sched [][]int, watchdog time.Duration) *c1
 	sort.Ints(obs.extra)
 	if !settled {
 		obs.sync = false
+		buf := make([]byte, 1<<16)
+		obs.diag = fmt.Sprintf("not settled: %d goroutines, base %d; %s", runtime.NumGoroutine(), base, buf[:runtime.Stack(buf, true)])
 	}
 	obs.reqs = all
 	sort.SliceStable(obs.reqs, func(i, j int) bool { return obs.reqs[i].svc < obs.reqs[j].svc })
@@ -874,7 +881,7 @@ func TestVerifC11(t *testing.T) {
 	}
 	watchdog := time.Duration(vEnvInt("VERIF_C11_WATCHDOG_MS", 3000)) * time.Millisecond
 	cs := vNewCases(stage)
-	lost := 0
+	lost, hung, reruns := 0, 0, 0
 	for i := 0; i < n; i++ {
 		if only >= 0 && i != only {
 			continue
@@ -885,6 +892,17 @@ func TestVerifC11(t *testing.T) {
 			t.Fatalf("no schedule for case %d", i)
 		}
 		obs := c11Run(t, c, sched, watchdog)
+		for try := 0; try < 2 && !obs.sync && obs.returned && lost <= 40; try++ {
+			// The lock-step is decided by watchdogs; on a heavily loaded machine one of them can expire
+			// although nothing is wrong.  The inputs and the schedule are deterministic, so the case is
+			// simply run again (fresh KeepClient): a real disagreement shows up again.
+			c = c11Build(t, seed, i, enum)
+			obs = c11Run(t, c, sched, 2*watchdog)
+			reruns++
+		}
+		if !obs.returned {
+			hung++
+		}
 		if !obs.sync {
 			lost++
 			if lost > 40 {
@@ -915,13 +933,20 @@ func TestVerifC11(t *testing.T) {
 		desc := map[string]interface{}{"index": i, "entry": c11Entries[c.entry], "services": svd, "order": c.order, "want": c.want, "retries": c.retries,
 			"data_len": len(c.data), "nbytes": c.nbytes, "hash": c.hash, "answers": tab, "picks": c.picks, "schedule": sched,
 			"observed_steps": std, "extra": obs.extra, "locator": obs.loc, "replicas": obs.n, "error_class": []string{"nil", "insufficient", "oversize"}[obs.errClass],
-			"error": obs.errMsg, "returned": obs.returned, "lockstep_kept": obs.sync, "requests": len(obs.reqs)}
+			"error": obs.errMsg, "diag": obs.diag, "returned": obs.returned, "lockstep_kept": obs.sync, "requests": len(obs.reqs)}
 		tags := append([]string(nil), c.tags...)
 		tags = append(tags, "result="+[]string{"ok", "insufficient", "oversize"}[obs.errClass], fmt.Sprintf("steps=%d", c11Bucket(len(obs.steps))))
 		if len(sched) > 0 && len(sched[len(sched)-1]) > 0 {
 			tags = append(tags, "abandoned-uploads")
 		}
 		cs.Add(i, term, desc, len(obs.steps) >= 2, tags...)
+		if hung >= 3 {
+			// Put does not return: three concrete inputs are enough, every further case would cost the watchdog
+			break
+		}
+	}
+	if reruns > 0 {
+		cs.Tag(fmt.Sprintf("rerun-after-watchdog=%d", reruns))
 	}
 	cs.Write()
 }
